@@ -37,6 +37,24 @@ def m_read(eng, args, kwargs, st, node):
     return [(SStr(ret), s)]
 
 
+def line_at(content, pos):
+    """the bytes from pos up to and including the next b'\\n' (or to the end)"""
+    rest = z3.SubString(content, pos, z3.Length(content) - pos)
+    idx = z3.IndexOf(rest, z3.StringVal('\n'), 0)
+    return z3.SubString(rest, 0, z3.If(idx < 0, z3.Length(rest), idx + 1))
+
+
+def m_readline(eng, args, kwargs, st, node):
+    if len(args) > 1:
+        raise Exception('sized readline is outside the model')
+    f = args[0]
+    s = st.copy()
+    content, pos = eng.hload(s, f, 'content'), eng.hload(s, f, 'pos')
+    ret = line_at(content, pos)
+    eng.hstore(s, f, 'pos', pos + z3.Length(ret))
+    return [(SStr(ret), s)]
+
+
 def m_write(eng, args, kwargs, st, node):
     f, data = args[0], args[1]
     s = st.copy()
@@ -86,6 +104,25 @@ def ext_tempfile(eng, args, kwargs, st, node):
     return [(r, s)]
 
 
+StatRes = HeapClass('FStat', 'record', fields=dict(st_size=INT))
+ALL.append(StatRes)
+
+
+def m_fileno(eng, args, kwargs, st, node):
+    return [(SInt(args[0].t), st)]          # the descriptor number identifies the file object (its address here)
+
+
+def ext_fstat(eng, args, kwargs, st, node):
+    fd = args[0]
+    if not isinstance(fd, SInt):
+        raise Exception('fstat argument')
+    s = st.copy()
+    r = eng.new_ref(s, StatRes)
+    eng.hstore(s, r, 'st_size', z3.Length(z3.Select(eng.heap_arr(s, F, 'content'), fd.t)))
+    eng.trusted.add('os.fstat(f.fileno()).st_size == len(content) for the on-disk file (the preceding seek() flushed its buffer)')
+    return [(r, s)]
+
+
 def ext_isinstance(eng, args, kwargs, st, node):
     v, names = args
     if isinstance(v, SRef) and v.cls.name == 'FileObj' and 'BytesIO' in names:
@@ -95,9 +132,9 @@ def ext_isinstance(eng, args, kwargs, st, node):
     return None
 
 
-EXTERNALS = {'method:FileObj.read': m_read, 'method:FileObj.write': m_write, 'method:FileObj.seek': m_seek,
+EXTERNALS = {'method:FileObj.readline': m_readline, 'method:FileObj.read': m_read, 'method:FileObj.write': m_write, 'method:FileObj.seek': m_seek,
              'method:FileObj.tell': m_tell, 'method:FileObj.getvalue': m_getvalue, 'method:FileObj.close': m_close,
-             'TemporaryFile': ext_tempfile, 'isinstance': ext_isinstance}
+             'TemporaryFile': ext_tempfile, 'isinstance': ext_isinstance, 'method:FileObj.fileno': m_fileno, 'os.fstat': ext_fstat}
 CONSTS = {'TemporaryFile': SFunc('extfunc', 'TemporaryFile'), 'os': SFunc('module', 'os'), 'BytesIO': SFunc('extfunc', 'BytesIO')}
 
 
@@ -130,7 +167,7 @@ MOD = lambda c: [('FileObj', 'content'), ('FileObj', 'pos'), ('FileObj', 'disk')
 def rollover_ensures(c):
     o, n = V(c, c.old), V(c)
     return [('the view (content, position) is preserved exactly', z3.And(n.content == o.content, n.pos == o.pos)),
-            ('the file is on disk afterwards and open', z3.And(n.disk, z3.Not(n.closed)))]
+            ('the file is on disk afterwards and open', z3.And(n.disk, z3.Not(n.closed), n.buf.t >= 1, n.buf.t < c.st.alloc))]
 
 
 rollover = Contract('SpooledBytesIO.rollover', setup=setup, requires=req, ensures=rollover_ensures, modifies=MOD,
@@ -176,13 +213,23 @@ read = Contract('SpooledBytesIO.read', setup=read_setup, requires=req, ensures=r
 def seek_setup(eng, st, variant=None):
     d = setup(eng, st)
     d['pos'] = SInt(z3.Int('arg_pos'))
-    d['mode'] = SInt(0)
+    d['mode'] = SInt(z3.Int('arg_mode'))
     return d
 
 
-seek = Contract('SpooledBytesIO.seek', setup=seek_setup, requires=req,
-                ensures=lambda c: [('position set, content unchanged', z3.And(V(c).pos == c.a('pos'), V(c).content == V(c, c.old).content,
-                                                                               c.r() == c.a('pos')))], modifies=lambda c: [('FileObj', 'pos')])
+def seek_target(c):
+    """io.BytesIO.seek: absolute, relative to the position, relative to the end"""
+    o = V(c, c.old)
+    m, p = c.a('mode'), c.a('pos')
+    return z3.If(m == 0, p, z3.If(m == 1, o.pos + p, z3.Length(o.content) + p))
+
+
+seek = Contract('SpooledBytesIO.seek', setup=seek_setup,
+                requires=lambda c: req(c) + [('whence is 0, 1 or 2', z3.And(c.a('mode') >= 0, c.a('mode') <= 2))],
+                ensures=lambda c: [('position set as io.BytesIO.seek does (whence 0/1/2), content unchanged',
+                                    z3.And(V(c).pos == seek_target(c), V(c).content == V(c, c.old).content, c.r() == seek_target(c),
+                                           V(c).disk == V(c, c.old).disk, z3.Not(V(c).closed)))],
+                modifies=lambda c: [('FileObj', 'pos')])
 tell = Contract('SpooledBytesIO.tell', setup=setup, requires=req,
                 ensures=lambda c: [('returns the position, nothing changes', z3.And(c.r() == V(c, c.old).pos, V(c).pos == V(c, c.old).pos,
                                                                                     V(c).content == V(c, c.old).content))], modifies=lambda c: [])
@@ -372,3 +419,44 @@ mfr_read = Contract('MultiFileReader.read', setup=mfr_read_setup, requires=mfr_r
                     local_types=dict(parts=REF(Parts)), facts=mfr_tl_def)
 CONTRACTS['MultiFileReader.read'] = mfr_read
 FUNCS.append('MultiFileReader.read')
+
+
+# ---- len / getvalue / fileno: the same answers in memory and on disk, position restored -------------------------------------------
+def same_view(c):
+    o, n = V(c, c.old), V(c)
+    return z3.And(n.content == o.content, n.pos == o.pos, z3.Not(n.closed))
+
+
+length_p = Contract('SpooledBytesIO.len', setup=setup, requires=req,
+                    ensures=lambda c: [('len = number of bytes of the content, whether in memory or on disk; content and position unchanged',
+                                        z3.And(c.r() == z3.Length(V(c, c.old).content), same_view(c)))],
+                    modifies=MOD, returns=lambda c: SInt(c.st.fresh.const('length', z3.IntSort())))
+getvalue = Contract('SpooledIOBase.getvalue', setup=setup, requires=req,
+                    ensures=lambda c: [('getvalue = the whole content; content and position unchanged',
+                                        z3.And(c.r() == V(c, c.old).content, same_view(c)))],
+                    modifies=lambda c: [('FileObj', 'pos')], returns=lambda c: SStr(c.st.fresh.const('value', z3.StringSort())))
+fileno = Contract('SpooledIOBase.fileno', setup=setup, requires=req,
+                  ensures=lambda c: [('fileno rolls over to disk and preserves the view', z3.And(same_view(c), V(c).disk, c.r() == V(c).buf.t,
+                                                                                                V(c).buf.t >= 1, V(c).buf.t < c.st.alloc))],
+                  modifies=MOD, returns=lambda c: SInt(c.st.fresh.const('fd', z3.IntSort())))
+for _c in [length_p, getvalue, fileno]:
+    CONTRACTS[_c.qualname] = _c
+FUNCS += ['SpooledBytesIO.len', 'SpooledIOBase.getvalue', 'SpooledIOBase.fileno']
+SB.props['len'] = 'SpooledBytesIO.len'
+
+
+def readline_setup(eng, st, variant=None):
+    d = setup(eng, st)
+    d['length'] = SNone()
+    return d
+
+
+readline = Contract('SpooledBytesIO.readline', setup=readline_setup, requires=req,
+                    ensures=lambda c: [('readline() = the bytes up to and including the next newline (or to the end), as io.BytesIO; '
+                                        'position advanced past them, content and backing unchanged',
+                                        z3.And(c.r() == line_at(V(c, c.old).content, V(c, c.old).pos),
+                                               V(c).pos == V(c, c.old).pos + z3.Length(c.r()), V(c).content == V(c, c.old).content,
+                                               V(c).disk == V(c, c.old).disk))],
+                    modifies=lambda c: [('FileObj', 'pos')], returns=lambda c: SStr(c.st.fresh.const('line', z3.StringSort())))
+CONTRACTS['SpooledBytesIO.readline'] = readline
+FUNCS.append('SpooledBytesIO.readline')
